@@ -790,6 +790,13 @@ class Canon:
                 if m:
                     ln = '%s:%s' % (ln, m.group(1))
             r = '%s(%s)' % (ln, ', '.join(args))
+            # decoding the 32-byte big-endian encoding of a 256-bit value gives the value back
+            if ln == 'INT' and len(args) == 1:
+                a0_ = args[0]
+                if a0_.startswith('BE(') and a0_.endswith(')') and a0_.count('(') == a0_.count(')'):
+                    return a0_[3:-1]
+                if a0_[:2] in ('X(', 'Y(') and a0_.endswith(')'):
+                    return 'plain(aff%s(%s))' % (a0_[0].lower(), a0_[2:-1])
             # BE(plain(affx(P))) -> X(P)
             for ax in ('x', 'y'):
                 pre = 'BE(plain(aff%s(' % ax
